@@ -285,7 +285,13 @@ def read_lines(path):
         return [l.rstrip("\n") for l in f]
 
 
+# process time-outs are safety nets against hangs, not performance requirements: generous by a factor, so
+# that a machine busy with other work does not turn a slow run into a reported crash
+TIMEOUT_FACTOR = float(os.environ.get("BRV_TIMEOUT_FACTOR", "4"))
+
+
 def run_harness(name, script_path, out_path, timeout=600, limit_kb=6_000_000, args=("run",)):
+    timeout = timeout * TIMEOUT_FACTOR
     err_path = str(out_path) + ".stderr"
     rc, _, err = sh([str(BIN / name)] + list(args), stdin_path=script_path, stdout_path=out_path,
                     stderr_path=err_path, timeout=timeout, limit_kb=limit_kb,
@@ -294,6 +300,7 @@ def run_harness(name, script_path, out_path, timeout=600, limit_kb=6_000_000, ar
 
 
 def run_driver(name, in_path, out_path, timeout=900, args=()):
+    timeout = timeout * TIMEOUT_FACTOR
     exe = LEAN / ".lake" / "build" / "bin" / name
     err_path = str(out_path) + ".stderr"
     rc, _, err = sh([str(exe)] + list(args), stdin_path=in_path, stdout_path=out_path, stderr_path=err_path,
